@@ -156,6 +156,14 @@ func (m *machine) registerIntrinsics() {
 		}
 		return nil
 	}
+	in[vs+"ExploreSelects"] = func(fr *frame, fn *ssa.Function, args []value) value {
+		on, _ := args[0].(bool)
+		fr.i.exploreSelect = on
+		if on {
+			fr.i.everExplored = true
+		}
+		return nil
+	}
 	in[vs+"Yield"] = func(fr *frame, fn *ssa.Function, args []value) value {
 		fr.i.visible(fr, "yield")
 		return nil
